@@ -98,12 +98,18 @@ std::string prefixed(const std::string &unit, Rng &r) { static const char *pre[]
 void meta_case(Ctx &c) {
     Rng &r = c.rng; File f = File::open(c.path("c18.nix"), FileMode::Overwrite); Block b = f.createBlock("b", "t");
     c.fp("M");
+    // both scaling directions between two prefixes of one base unit occur in the same process (array 0: axes in pa+base,
+    // requests in pb+base; array 1: the other way round), so a factor that depends on what was converted earlier is seen
+    static const char *bases[] = {"s", "V", "m", "A", "Hz", "T"}; static const char *prefs[] = {"", "m", "k", "u", "M", "n", "c", "d", "h", "T"};
+    std::string base = r.pick(bases), pa = r.pick(prefs), pb = r.pick(prefs); while (pb == pa) pb = r.pick(prefs);
+    if (r.chance(0.3)) { base = r.chance(0.6) ? "m" : "T"; pa = ""; pb = base; if (r.chance(0.5)) std::swap(pa, pb); }   // prefix letter == unit letter (mm, TT): the ambiguous corner of the grammar
     for (int ai = 0; ai < 3; ai++) {
+        std::string axis_prefix = ai == 0 ? pa : ai == 1 ? pb : std::string(r.pick(prefs)), req_prefix = ai == 0 ? pb : ai == 1 ? pa : std::string(r.pick(prefs));
         size_t R = 1 + r.u(2); RArray A; A.shape.resize(R); for (auto &e : A.shape) e = 3 + (long)r.u(8);
         A.da = b.createDataArray("a" + str(ai), "t", DataType::Double, to_nd(A.shape)); long n = ArrayModel::nelms(A.shape); std::vector<double> lin((size_t)n); for (long i = 0; i < n; i++) lin[(size_t)i] = (double)i; A.da.setData(DataType::Double, lin.data(), to_nd(A.shape), NDSize(R, 0));
         static const double dts[] = {250.0, 1.0, 0.5, 1000.0, 0.25, 2.0, 125.0}; static const char *units[] = {"s", "V", "m", "A", "Hz"};
         for (size_t d = 0; d < R; d++) {
-            Axis ax; ax.unit = r.pick(units);
+            Axis ax; ax.unit = d == 0 ? axis_prefix + base : std::string(r.pick(units));
             if (r.chance(0.6)) { ax.kind = Axis::Sampled; ax.dt = r.pick(dts); ax.off = r.chance(0.5) ? 0.0 : ax.dt * (double)r.range(-3, 3); SampledDimension sd = A.da.appendSampledDimension(ax.dt); sd.unit(ax.unit); if (ax.off != 0.0) sd.offset(ax.off); }
             else { ax.kind = Axis::Range; double t = (double)r.range(-5, 5) * 0.5; for (long i = 0; i < A.shape[d]; i++) { ax.ticks.push_back(t); t += r.pick(dts); } RangeDimension rd = A.da.appendRangeDimension(ax.ticks); rd.unit(ax.unit); }
             A.ax.push_back(ax); c.fp(ax.kname() + ax.unit + (ax.kind == Axis::Sampled ? hexd(ax.dt) + hexd(ax.off) : str(ax.ticks.size())));
@@ -115,7 +121,7 @@ void meta_case(Ctx &c) {
                 const Axis &ax = A.ax[d]; long nn = A.shape[d]; long i = (long)r.u(nn), j = i + (long)r.u(nn - i);
                 double step = ax.kind == Axis::Sampled ? ax.dt : 0.0; int cls = (int)r.u(3);
                 p[d] = ax.x(i) + (cls == 1 ? step * 0.5 : 0.0); double q = ax.x(j) + (cls == 2 ? step * 0.5 : 0.0); e[d] = r.chance(0.15) ? 0.0 : q - p[d]; if (e[d] < 0) e[d] = 0.0;
-                u1[d] = ax.unit; u2[d] = prefixed(ax.unit, r);
+                u1[d] = ax.unit; u2[d] = d == 0 ? req_prefix + base : prefixed(ax.unit, r);
                 // ... and the same request in a prefix-scaled unit; judged only if rescaling is exact in double
                 double fct = util::getSIScaling(u2[d], ax.unit); p2[d] = p[d] / fct; e2[d] = e[d] / fct;
                 exact = exact && (p2[d] * fct == p[d]) && ((p2[d] + e2[d]) * fct == (p[d] + e[d])) && (e[d] == 0.0) == (e2[d] == 0.0);
